@@ -1701,3 +1701,7 @@ mod tests {
         );
     }
 }
+
+#[cfg(all(test, feature = "pendulum_project_ntpd_rs_verif"))]
+#[path = "../../../verif/harness/ntp_proto/server.rs"]
+mod verif_server;
